@@ -3,6 +3,7 @@
 package loadbalancer
 
 import (
+	verifclock "github.com/0xReLogic/Helios/internal/verifclock"
 	"fmt"
 	"math/rand"
 	"net"
@@ -186,7 +187,7 @@ func TestVerifCleanupShutdown(t *testing.T) {
 			conns = append(conns, c)
 			p.Put("b", c)
 		}
-		time.Sleep(3 * time.Millisecond) // the first four are stale now
+		verifclock.Advance(3 * time.Millisecond) // the first four are stale now (the package reads the harness clock)
 		for k := 0; k < 4; k++ {
 			c := &sConn{}
 			conns = append(conns, c)
@@ -224,4 +225,83 @@ func TestVerifCleanupShutdown(t *testing.T) {
 		}
 	}
 	fmt.Printf("cleanup-shutdown done rounds=%d\n", rounds)
+}
+
+// gConn: a connection whose Close waits at a gate (a socket whose close blocks for a moment)
+type gConn struct {
+	net.Conn
+	id      int
+	entered chan struct{}
+	gate    chan struct{}
+	closed  atomic.Bool
+}
+
+func (c *gConn) Close() error {
+	if c.entered != nil {
+		select {
+		case c.entered <- struct{}{}:
+		default:
+		}
+		<-c.gate
+	}
+	c.closed.Store(true)
+	return nil
+}
+
+// TestVerifCleanupWindow: the janitor pass is in the middle of a backend's idle list (closing a stale
+// connection takes a moment) while Get and Put are called for that backend. Whatever the pass does
+// with its lock, afterwards (1) no connection has been handed to two holders and (2) a connection Put
+// accepted is still held — and therefore closed by Shutdown. The schedule is forced: the stale
+// connection's Close blocks at a gate until Get / Put have either returned or are visibly waiting.
+func TestVerifCleanupWindow(t *testing.T) {
+	for _, variant := range []string{"get", "put"} {
+		p := NewWebSocketPool(8, 8, 20*time.Millisecond)
+		stale := &gConn{id: 1, entered: make(chan struct{}, 1), gate: make(chan struct{})}
+		p.Put("b", stale)
+		verifclock.Advance(30 * time.Millisecond) // stale now (the package reads the harness clock)
+		fresh := &gConn{id: 2}
+		p.Put("b", fresh)
+		done := make(chan struct{})
+		go func() { p.cleanup(); close(done) }()
+		select {
+		case <-stale.entered:
+		case <-time.After(2 * time.Second):
+			t.Fatalf("VERIF-POOL %s: the janitor pass never closed the stale connection", variant)
+		}
+		var got1 net.Conn
+		extra := &gConn{id: 3}
+		accepted := false
+		opDone := make(chan struct{})
+		go func() {
+			if variant == "get" {
+				got1 = p.Get("b")
+			} else {
+				accepted = p.Put("b", extra)
+			}
+			close(opDone)
+		}()
+		select {
+		case <-opDone: // the pass does not hold the backend's lock while closing
+		case <-time.After(150 * time.Millisecond): // it does: the call waits for the pass
+		}
+		close(stale.gate)
+		<-done
+		<-opDone
+		if variant == "get" {
+			got2 := p.Get("b")
+			if got1 != nil && got2 != nil && got1 == got2 {
+				t.Fatalf("VERIF-POOL get: the connection handed out by Get while the janitor pass was running was handed out again by the next Get (two holders of one connection)")
+			}
+		} else {
+			idle, _ := p.Stats("b")
+			p.Shutdown()
+			if accepted && !extra.closed.Load() {
+				t.Fatalf("VERIF-POOL put: a connection Put accepted while the janitor pass was running is still open after Shutdown (idle count before Shutdown: %d): the pass dropped it from the list", idle)
+			}
+		}
+		if variant == "get" {
+			p.Shutdown()
+		}
+	}
+	fmt.Println("cleanup-window done")
 }
